@@ -327,8 +327,14 @@ func c19RunScenario(sc c19Scenario) c19ChildOut {
 	out.HighWater = int(atomic.LoadInt32(&high))
 	out.Note = fmt.Sprint(phase.Load())
 	out.Fails = append(out.Fails, c19Monitor(sc, out.Trace, out.Complete, out.HighWater)...)
+	if len(out.Trace) > c19MaxCoqTrace { // large configuration: the trace is checked by the monitor only (the validator is quadratic)
+		out.Note += fmt.Sprintf("; trace of %d events checked by the monitor only", len(out.Trace))
+		out.Trace = nil
+	}
 	return out
 }
+
+const c19MaxCoqTrace = 8000
 
 // c19PoolGoroutines counts the goroutines that are inside the pool's worker loop or its dispatcher.
 func c19PoolGoroutines() int {
@@ -567,6 +573,13 @@ func c19Gen(tier string, rng *rand.Rand) []c19Case {
 			cs = append(cs, mk(w, q, "tcp-drain"))
 			if tier == "thorough" || q != 2 {
 				cs = append(cs, mk(w, q, "tcp-saturated"))
+			}
+		}
+	}
+	if tier == "thorough" { // the sizes of the repository's own TestNewPool and beyond the grid; monitor only
+		for _, b := range [][4]int{{1000, 10000, 8, 5000}, {1000, 10000, 16, 1500}, {256, 0, 32, 600}, {3, 5000, 4, 4000}, {5000, 100, 4, 5000}} {
+			for _, m := range []string{"drain", "race"} {
+				cs = append(cs, c19Case{Sc: c19Scenario{W: b[0], Q: b[1], Subs: b[2], Jobs: b[3], Dur: []int{0, 1, 4}[rng.Intn(3)], Procs: procs[rng.Intn(3)], Mode: m, Seed: rng.Int63()}})
 			}
 		}
 	}
